@@ -322,7 +322,7 @@ func cgScenarioFor(rng *rand.Rand, multi bool) *cgScenario {
 	if rng.Intn(3) != 0 {
 		n := 1 + rng.Intn(4)
 		for i := 0; i < n; i++ {
-			k := gKinds[rng.Intn(len(gKinds)-1)] // offset-fetch faults are rare, below
+			k := gKinds[rng.Intn(len(gKinds))]
 			w := make([]int, 1+rng.Intn(3))
 			for j := range w {
 				if rng.Intn(2) == 0 {
@@ -343,7 +343,7 @@ func cgCore(tier string) []*cgScenario {
 		maxLen = 2
 	}
 	for _, beh := range []string{"all", "return-after-k"} {
-		for _, kind := range gKinds[:6] {
+		for _, kind := range gKinds {
 			var words [][]int
 			for f := 1; f < nGroupFaults; f++ {
 				words = append(words, []int{f})
